@@ -400,7 +400,7 @@ def correspond(ctx: Ctx):
                     for kind in CLIFF2:
                         for a, b in itertools.permutations(range(n), 2):
                             one_case(ctx, kind, [a, b, 3], pairs, reqs, metas, "exhaustive")
-        ctx.extra["exhaustive"] = "all Pauli strings on ≤3 qubits × all gate kinds × all placements"
+        ctx.extra["exhaustive_domain"] = "all Pauli strings on ≤3 qubits × all gate kinds × all placements"
     compare(ctx, reqs, metas)
 
 
